@@ -154,8 +154,14 @@ Lemma l_attrs_fine e c ats :
 Proof.
   induction 1 as [|[q v] ats Ha _ IH]; intros Hd; [reflexivity|].
   inversion Hd as [|? ? Hq Hr]; subst. cbn [fst] in Hq.
-  destruct Ha as [lex [val [_ [Hv [_ Hx]]]]]. cbn [snd] in Hv. subst v.
-  cbn [l_attrs]. rewrite Hq. unfold l_text_ok. rewrite Hx. cbn [andb]. rewrite (IH Hr). reflexivity.
+  destruct Ha as [lex [val [Hn [Hv [Han Hx]]]]]. cbn [fst snd] in Hn, Hv, Han. subst v.
+  assert (Hnx : negb (match fst q with None => str_eqb (snd q) s_xmlns | Some _ => false end) = true).
+  { destruct q as [[u|] l]; [reflexivity|]. cbn [fst snd]. unfold n_qname in Hn. cbn [fst snd] in Hn.
+    inversion Hn; subst lex. unfold attr_name in Han.
+    destruct (split_lex l) as [[[p|] l']|] eqn:Es; try discriminate.
+    - destruct (str_eqb p s_xmlns); [discriminate|]. destruct (lookup_prefix e p); discriminate.
+    - destruct (str_eqb l' s_xmlns) eqn:E; [discriminate|]. inversion Han; subst. rewrite E. reflexivity. }
+  cbn [l_attrs]. rewrite Hq. unfold l_text_ok. rewrite Hx, Hnx. cbn [andb]. rewrite (IH Hr). reflexivity.
 Qed.
 
 (* ------------------------------------------------------------------ (L) the sink *)
